@@ -89,6 +89,7 @@ mod kani_tcp {
         s.timeout = any_opt(any_duration);
         s.keep_alive = any_opt(any_duration);
         s.tuple = Some(Tuple { local: IpEndpoint::new(LOCAL, 80), remote: IpEndpoint::new(REMOTE, 49500) });
+        s.listen_endpoint = if kani::any() { IpListenEndpoint { addr: None, port: 80 } } else { IpListenEndpoint::default() };
         s.local_seq_no = any_seq();
         s.remote_seq_no = any_seq();
         s.remote_last_seq = any_seq();
@@ -257,6 +258,7 @@ mod kani_tcp {
         let old_state = s.state;
         let old_local = s.local_seq_no;
         let old_txlen = s.tx_buffer.len() as i64;
+        let old_listener = s.listen_endpoint.port != 0;
         let now = cx.now();
 
         dump("pre", &s, &repr, q, b, max_edge, peer_end);
@@ -306,8 +308,9 @@ mod kani_tcp {
                 let fin_in_order = repr.control == TcpControl::Fin && sdiff(repr.seq_number, old_nxt) <= 0 && sdiff(seg_end, old_nxt) >= 0;
                 let rst = repr.control == TcpControl::Rst;
                 let ok = a == b2 || match (a, b2) {
+                    (State::SynReceived, State::Listen) => rst && old_listener,          // only a listener goes back to LISTEN
+                    (State::SynReceived, State::Closed) if rst => !old_listener,
                     (_, State::Closed) if rst => true,
-                    (State::SynReceived, State::Listen) => rst,
                     (State::SynReceived, State::Established) => ack_of_syn && !rst,
                     (State::SynReceived, State::CloseWait) => fin_in_order && ack_of_syn,
                     (State::Established, State::CloseWait) => fin_in_order,
@@ -864,7 +867,8 @@ mod kani_tcp {
                     kani::cover!(a == State::Closed, "listen from CLOSED");
                     assert!(port != 0);
                     assert!(s.state == State::Listen && (matches!(a, State::Closed | State::TimeWait) || (a == State::Listen && old_ep == ep)), "C17.listen: LISTEN is entered only from CLOSED/TIME-WAIT");
-                    assert!(s.tuple.is_none() && s.rx_buffer.is_empty() && s.tx_buffer.is_empty());
+                    if a != State::Listen { assert!(s.tuple.is_none() && s.rx_buffer.is_empty() && s.tx_buffer.is_empty(), "C17.listen: a new listener starts from a reset socket"); }
+                    assert!(s.listen_endpoint == ep, "C17.listen: the listen endpoint is recorded");
                 }
                 Err(_) => assert!(s.state == a, "C17.listen: a refused listen changes nothing"),
             }
@@ -877,6 +881,8 @@ mod kani_tcp {
                     assert!(rport != 0 && lport != 0);
                     assert!(s.state == State::SynSent && matches!(a, State::Closed | State::TimeWait), "C17.connect: SYN-SENT is entered only from CLOSED/TIME-WAIT");
                     assert!(s.remote_last_seq == s.local_seq_no && s.rx_buffer.is_empty() && s.tx_buffer.is_empty() && s.assembler.is_empty() && !s.rx_fin_received && s.remote_last_ack.is_none());
+                    assert!(s.listen_endpoint.port == 0, "C17.connect: an actively opened socket is not a listener (a reset in SYN-RECEIVED must close it, not return it to LISTEN)");
+                    assert!(s.remote_mss == DEFAULT_MSS && s.remote_win_scale.is_none(), "C05.connect: nothing is remembered from a previous connection");
                     let _ = iss_probe;
                 }
                 Err(_) => assert!(s.state == a, "C17.connect: a refused connect changes nothing"),
